@@ -3,6 +3,7 @@ import argparse
 import logging
 import importlib
 import json
+import re
 import os
 import sys
 import traceback
@@ -39,7 +40,8 @@ def main():
         except core.Broken as b:
             ctx.broke(b.kind, b.name, b.detail)
         # 3. something broke and nothing concrete yet: search for a failing input
-        if ctx.broken and not ctx.failing and hasattr(mod, "search"):
+        own = [f for f in ctx.failing if not (re.match(r"C\d\d:", f["signature"]) and not f["signature"].startswith(ctx.pid + ":"))]
+        if ctx.broken and not own and hasattr(mod, "search"):
             try:
                 mod.search(ctx)
             except core.Broken as b:
